@@ -1,5 +1,6 @@
 import UgoVerif.Proofs.EncSafe
 import UgoVerif.Proofs.EncAlloc
+import UgoVerif.Gen.EncDispatch
 /-
   C18 — decoding malformed bytecode returns an error, never a panic, and does not
   allocate out of proportion to the input.
@@ -63,6 +64,17 @@ theorem decode_no_panic_versions (C : Ctx) (conv : BC → Res BC) (mods : Mods) 
     (decodeBytecodeF C conv mods fuel (header BytecodeVersion1 ++ body)).res.isPanic = false ∧
     (decodeBytecodeF C conv mods fuel (header BytecodeVersion2 ++ body)).res.isPanic = false :=
   ⟨decode_no_panic C conv mods hG hconv fuel _, decode_no_panic C conv mods hG hconv fuel _⟩
+
+/-- The shape of the version dispatch the model relies on, as regenerated from the source:
+    version 2 decodes with `decodeBytecodeV2`; version 1 is `decodeBytecodeV2` followed by the
+    converter (so the v1 path of `decodeBytecodeF` is `bcLoopF` then `conv`); `unmarshal` is
+    `UnmarshalBinary` followed by `fixObjects`. -/
+theorem dispatch_shape :
+    UgoVerif.Gen.EncDispatch.versionDispatch =
+      [("BytecodeVersion2", "decodeBytecodeV2"), ("BytecodeVersion1", "decodeBytecodeV1")] ∧
+    UgoVerif.Gen.EncDispatch.decodeV1Calls = ["decodeBytecodeV2", "convBytecodeV1ToV2"] ∧
+    UgoVerif.Gen.EncDispatch.unmarshalCalls = ["bc.UnmarshalBinary", "ugo.NewModuleMap", "bc.fixObjects"] := by
+  decide
 
 private theorem dominates_lin (a b L : Nat) (ha : 24 ≤ a) (hb : 268 ≤ b) :
     Dominates (fun n => n ≤ a * L + b) L := by
